@@ -228,6 +228,14 @@ def case_enclosing(mon: Monitor, rng: random.Random) -> None:
         poly = sg.MultiPoint(pts).convex_hull
         if poly.geom_type != "Polygon":
             return mon.skip("GeoBox.enclosing", "degenerate region")
+        if rng.random() < 0.3:
+            # a smooth outline with hundreds of vertices (a buffered point, a digitised coast line) instead of a handful: the ellipse inscribed in the hull's bounding box
+            import shapely.affinity as sa
+
+            x0_, y0_, x1_, y1_ = poly.bounds
+            if x1_ > x0_ and y1_ > y0_:
+                poly = sa.scale(sg.Point((x0_ + x1_) / 2, (y0_ + y1_) / 2).buffer(0.5, quad_segs=rng.choice([64, 100, 200])), x1_ - x0_, y1_ - y0_)
+                mon.obs["regions_with_hundreds_of_vertices"] += 1
         region = geom.Geometry(poly, region_crs)
         pts = list(poly.exterior.coords)
     desc = {"base": gen.gbox_desc(base), "family": fam, "region_crs": str(region_crs), "region": pts[:6], "bbox": as_bbox}
